@@ -7,6 +7,7 @@ import (
 	"io"
 	"net"
 	"os"
+	"strings"
 	"sync"
 	"testing"
 	"time"
@@ -487,7 +488,15 @@ func (f *payloadFSM) NeedSnapshot(int) bool {
 	return f.snapshot && f.applied >= 2
 }
 
-func transferSnapshot(t *testing.T, dir string, n int) (bool, string) {
+// transferSnapshot returns (ok, definite, why). A wrong payload is a definite failure; anything that
+// depends on the wall clock (no leader yet, a submission that timed out, the snapshot not there yet)
+// is not: the caller repeats the attempt with a longer wait before it concludes anything.
+func transferSnapshot(t *testing.T, dir string, n int, wait time.Duration) (bool, bool, string) {
+	ok, why := transferSnapshotOnce(t, dir, n, wait)
+	return ok, !ok && strings.Contains(why, "differ from the leader's"), why
+}
+
+func transferSnapshotOnce(t *testing.T, dir string, n int, wait time.Duration) (bool, string) {
 	payload := make([]byte, n)
 	for i := range payload {
 		payload[i] = byte(i*7 + i/255)
@@ -507,12 +516,12 @@ func transferSnapshot(t *testing.T, dir string, n int) (bool, string) {
 		return false, "Start: " + err.Error()
 	}
 	defer a.Stop()
-	deadline := time.Now().Add(5 * time.Second)
+	deadline := time.Now().Add(5*time.Second + wait)
 	for a.Status().State != raft.Leader && time.Now().Before(deadline) {
 		time.Sleep(20 * time.Millisecond)
 	}
 	for i := 0; i < 3; i++ {
-		if r := a.SubmitOperation([]byte(fmt.Sprintf("op%d", i)), raft.Replicated, 2*time.Second).Await(); r.Error() != nil {
+		if r := a.SubmitOperation([]byte(fmt.Sprintf("op%d", i)), raft.Replicated, 2*time.Second+wait).Await(); r.Error() != nil {
 			return false, "submit at the leader: " + r.Error().Error()
 		}
 	}
@@ -536,7 +545,7 @@ func transferSnapshot(t *testing.T, dir string, n int) (bool, string) {
 	}
 	defer b.Stop()
 	a.AddServer("b", addrB, false, 3*time.Second)
-	limit := time.Now().Add(8 * time.Second)
+	limit := time.Now().Add(wait)
 	for time.Now().Before(limit) {
 		fb.mu.Lock()
 		got, have := fb.restored, fb.gotOne
@@ -549,7 +558,7 @@ func transferSnapshot(t *testing.T, dir string, n int) (bool, string) {
 		}
 		time.Sleep(25 * time.Millisecond)
 	}
-	return false, fmt.Sprintf("the new node did not receive the snapshot within 8 s (its status: %+v, leader: %+v)", b.Status(), a.Status())
+	return false, fmt.Sprintf("the new node did not receive the snapshot within %v (its status: %+v, leader: %+v)", wait, b.Status(), a.Status())
 }
 
 // TestC19Transfer: a leader holding a snapshot of N bytes brings an empty node up to date over
@@ -565,7 +574,18 @@ func TestC19Transfer(t *testing.T) {
 	}
 	base := scratchRoot(t)
 	for i, n := range sizes {
-		ok, why := transferSnapshot(t, fmt.Sprintf("%s/x%d", base, i), n)
+		// a time limit that is hit proves nothing on a busy machine: three attempts with growing limits;
+		// only a transfer that never arrives (or arrives wrong) is reported
+		var ok bool
+		var why string
+		for k, wait := range []time.Duration{8 * time.Second, 40 * time.Second, 120 * time.Second} {
+			var definite bool
+			ok, definite, why = transferSnapshot(t, fmt.Sprintf("%s/x%d-%d", base, i, k), n, wait)
+			if ok || definite {
+				break
+			}
+			col.Note(fmt.Sprintf("snapshot transfer of %d bytes, attempt %d: %s", n, k+1, why))
+		}
 		sample := map[string]any{"kind": "snapshot-transfer", "payload_bytes": n, "ok": ok}
 		col.Case(true, stats.Hash64("transfer", n), []string{"kind:snapshot-transfer"}, func() any { return sample })
 		if !ok {
